@@ -52,7 +52,11 @@ func (s *script) String() string {
 }
 
 func runResponderCase(name string, sc *script) *caseOut {
-	c := newCase("C16", name)
+	return runResponderCaseFor("C16", name, sc)
+}
+
+func runResponderCaseFor(prop, name string, sc *script) *caseOut {
+	c := newCase(prop, name)
 	tr := newTracer()
 	fs := newFakeStream(tr)
 	fs.failFrom = sc.failFrom
@@ -126,6 +130,21 @@ func runResponderCase(name string, sc *script) *caseOut {
 			o := observe(es)
 			return settled(o)
 		})
+		if !quiescent && !broken {
+			// liveness: the Responder polls every 10 ms; a report or an acknowledgement that has not
+			// been sent 12 s after the last batch (no send is held that long) will never be sent
+			quiescent = tr.waitFor(9*time.Second, func(es []logEntry) bool { return settled(observe(es)) })
+			if !quiescent {
+				o := observe(tr.snapshot())
+				maxAck := 0
+				for _, sd := range o.sends {
+					if sd.ack > maxAck {
+						maxAck = sd.ack
+					}
+				}
+				c.fail("response-never-sent", "12 s after the last batch was handed to the Responder (ScheduleAck / ScheduleBadDataResponse returned, no send failed, the stream is open) it has sent %d responses, highest acknowledgement %d of %d records: the last accepted batch is never acknowledged or a rejected one never reported (script %s)", len(o.sends), maxAck, count, sc)
+			}
+		}
 		if exit == "" {
 			if resp.LastError() != nil {
 				exit = "resperr"
